@@ -479,7 +479,7 @@ def check_action(case, ctx):
         return
 
     psd = bool(np.min(case["g"]["k"]["lam"]) >= 0)
-    small = r["scale"] <= 2.0  # rounding noise of the extracted K stays two decades below the default atol 1e-13
+    small = r["scale"] <= 4.0  # rounding noise of the extracted K stays two decades below the default atol 1e-13
     if builder == "h":
         fn = superop(bs[1:], h, zero_d, zero_k)
         req = case["required"] and small
@@ -635,7 +635,7 @@ def _eps_st(atol):
 def verdict_case(draw, tier):
     g = draw(gen_spec(tier, k_kinds=K_KINDS_PSD, j_kinds=("from_k",)))
     atol = draw(gen.log_uniform(1e-12, 1e-2))
-    kind = draw(st.sampled_from(["none", "eq", "ineq", "ineq", "both"]))
+    kind = draw(st.sampled_from(["ineq", "eq", "both", "ineq", "none"]))
     df = {"kind": kind, "eps_eq": draw(_eps_st(atol)), "eps_in": draw(_eps_st(atol)),
           "col": draw(st.integers(0, 15)), "idx": draw(st.integers(0, 14)), "sign": draw(st.sampled_from([1.0, -1.0]))}
     return {"g": g, "shape": g["shape"], "atol": atol, "defect": df, "via_settings": draw(st.booleans())}
@@ -742,43 +742,45 @@ def check_exponential(case, ctx):
     h, k, hs = r["H"], r["K"], r["hs"]
     nrm = float(np.linalg.norm(hs, 1))
     s, t = float(case["s"]), float(case["t"])
-    big = nrm * max(1.0, 2.0, s + t) > 0.3
+    big = nrm * max(2.0, s + t) > 0.3 or r["scale"] > 0.3
     tol = tol_for(shape, r["scale"] + nrm * max(2.0, s + t))
     ctx.label(shape, "k:" + g["k"]["kind"], "norm:" + ("big" if big else "small"))
     rho = rm.density_from_raw(case["state"]["raw_u"], case["state"]["raw_p"], d)
-    if big:
-        Settings.set_atol(1e-9)
-    try:
-        lind = el.generate_effective_lindbladian_from_hk(c_sys, h, k, is_physicality_required=True)
-        gate = lind.to_gate()
-        ctx.check(type(gate) is Gate, "to_gate_type", str(type(gate)))
-        ghs = np.asarray(gate.hs)
-        ctx.check(ghs.dtype == np.float64 and ghs.shape == (n, n), "to_gate_shape")
-        ctx.close(ghs, expm_ref(hs), tol, "to_gate_equals_expm_of_reference")
-        ctx.close(ghs, expm_ref(np.asarray(lind.hs)), tol, "to_gate_equals_expm")
-        # CPTP by refmodel
-        e0 = np.zeros(n)
-        e0[0] = 1.0
-        ctx.close(ghs[0], e0, tol, "to_gate_tp")
-        choi = rm.choi_from_hs(basis, ghs)
-        ctx.leq(-rm.min_eig(choi), 0.0, tol * d, "to_gate_cp")
-        ctx.check(bool(gate.is_physical()), "to_gate_is_physical")
-        out = rm.apply_hs(basis, ghs, rho)
-        ctx.close(np.trace(out), 1.0, tol * d, "to_gate_state_trace")
-        ctx.leq(-rm.min_eig(out), 0.0, tol * d, "to_gate_state_psd")
-        # semigroup law
-        l2 = el.EffectiveLindbladian(c_sys, 2.0 * np.asarray(lind.hs), is_physicality_required=True)
-        ctx.close(ghs @ ghs, l2.to_gate().hs, tol, "semigroup_double")
-        ls = el.EffectiveLindbladian(c_sys, s * np.asarray(lind.hs), is_physicality_required=True)
-        lt = el.EffectiveLindbladian(c_sys, t * np.asarray(lind.hs), is_physicality_required=True)
-        lst = el.EffectiveLindbladian(c_sys, (s + t) * np.asarray(lind.hs), is_physicality_required=True)
-        gs, gt, gst = ls.to_gate().hs, lt.to_gate().hs, lst.to_gate().hs
-        ctx.close(np.asarray(gs) @ np.asarray(gt), gst, tol, "semigroup_additive")
-        ctx.close(np.asarray(gt) @ np.asarray(gs), gst, tol, "semigroup_commutes")
-        # flags are carried over
-        ctx.check(gate.composite_system is c_sys and gate.is_physicality_required is True, "to_gate_flags")
-    finally:
-        Settings.set_atol(1e-13)
+    # Generators of norm <= 0.3 are built and exponentiated with the physicality requirement at the default atol
+    # (rounding noise ~1e-15); larger ones without it (expm noise on boundary generators is not separable from a
+    # violation at 1e-13, and raising Settings.atol would also raise quara's truncation threshold) and are judged
+    # by refmodel and by quara's verdict at an explicit tolerance.
+    req = not big
+    lind = el.generate_effective_lindbladian_from_hk(c_sys, h, k, is_physicality_required=req)
+    gate = lind.to_gate()
+    ctx.check(type(gate) is Gate, "to_gate_type", str(type(gate)))
+    ghs = np.asarray(gate.hs)
+    ctx.check(ghs.dtype == np.float64 and ghs.shape == (n, n), "to_gate_shape")
+    ctx.close(ghs, expm_ref(hs), tol, "to_gate_equals_expm_of_reference")
+    ctx.close(ghs, expm_ref(np.asarray(lind.hs)), tol, "to_gate_equals_expm")
+    # CPTP by refmodel
+    e0 = np.zeros(n)
+    e0[0] = 1.0
+    ctx.close(ghs[0], e0, tol, "to_gate_tp")
+    choi = rm.choi_from_hs(basis, ghs)
+    ctx.leq(-rm.min_eig(choi), 0.0, tol * d, "to_gate_cp")
+    vt = max(1e-13, 100 * tol * d)
+    ctx.check(bool(gate.is_physical(vt, vt)), "to_gate_is_physical", f"at tolerance {vt:.1e}")
+    out = rm.apply_hs(basis, ghs, rho)
+    ctx.close(np.trace(out), 1.0, tol * d, "to_gate_state_trace")
+    ctx.leq(-rm.min_eig(out), 0.0, tol * d, "to_gate_state_psd")
+    # semigroup law
+    l2 = el.EffectiveLindbladian(c_sys, 2.0 * np.asarray(lind.hs), is_physicality_required=req)
+    ctx.close(ghs @ ghs, l2.to_gate().hs, tol, "semigroup_double")
+    ls = el.EffectiveLindbladian(c_sys, s * np.asarray(lind.hs), is_physicality_required=req)
+    lt = el.EffectiveLindbladian(c_sys, t * np.asarray(lind.hs), is_physicality_required=req)
+    lst = el.EffectiveLindbladian(c_sys, (s + t) * np.asarray(lind.hs), is_physicality_required=req)
+    gs, gt, gst = ls.to_gate().hs, lt.to_gate().hs, lst.to_gate().hs
+    ctx.close(np.asarray(gs) @ np.asarray(gt), gst, tol, "semigroup_additive")
+    ctx.close(np.asarray(gt) @ np.asarray(gs), gst, tol, "semigroup_commutes")
+    # flags are carried over
+    ctx.check(gate.composite_system is c_sys and gate.is_physicality_required is req, "to_gate_flags")
+    ctx.label("required:%s" % req)
     ctx.nontrivial(k_is_nontrivial(k))
 
 
@@ -828,7 +830,7 @@ def check_projections(case, ctx):
     top = max(1.0, float(np.max(np.abs(w), initial=0.0)))
     physical = bool(w[0] >= 0.0 and g["j"]["kind"] == "from_k" and not g["row0"] and float(np.max(np.abs(hs[0]))) <= tol)
     ctx.label("input_physical:%s" % physical)
-    required = bool(case["required"] and physical and r["scale"] <= 2.0)
+    required = bool(case["required"] and physical and r["scale"] <= 4.0)
     lind = EffectiveLindbladian(c_sys, hs.copy(), is_physicality_required=required, on_para_eq_constraint=case["flag"])
     try:
         p = lind.calc_proj_ineq_constraint()
@@ -869,8 +871,8 @@ def random_setting_case(draw, tier):
     g = draw(gen_spec(tier, k_kinds=("psd", "rankdef", "zero", "zero"), j_kinds=("from_k",), s_hi=1.0))
     g["h"]["s"] = min(g["h"]["s"], 1.0)
     return {"g": g, "shape": g["shape"], "seed": draw(st.integers(0, 2 ** 31 - 1)),
-            "strength_h": draw(st.one_of(st.just(0.0), gen.log_uniform(1e-4, 1.0))),
-            "strength_k": draw(st.one_of(st.just(0.0), gen.log_uniform(1e-4, 1.0)))}
+            "strength_h": draw(gen.log_uniform(1e-4, 1.0)) * draw(st.sampled_from([1.0] * 7 + [0.0])),
+            "strength_k": draw(gen.log_uniform(1e-4, 1.0)) * draw(st.sampled_from([1.0] * 7 + [0.0]))}
 
 
 def check_random_setting(case, ctx):
@@ -887,42 +889,38 @@ def check_random_setting(case, ctx):
     sh, sk = float(case["strength_h"]), float(case["strength_k"])
     tol = tol_for(shape, r["scale"] + sh + sk * n)
     ctx.label(shape, "k:" + g["k"]["kind"], "sh0:%s" % (sh == 0), "sk0:%s" % (sk == 0))
-    Settings.set_atol(1e-9)  # the base generator is physical up to rounding noise of the reference construction
-    try:
-        base = EffectiveLindbladian(c_sys, r["hs"].copy(), is_physicality_required=True)
-        ident = build.make(c_sys, "gate", np.eye(n).reshape(-1), is_physicality_required=True)
-        setting = RandomEffectiveLindbladianGenerationSetting(c_sys, ident, base, sh, sk)
-        ctx.raises(ValueError, lambda: RandomEffectiveLindbladianGenerationSetting(c_sys, ident, base, -1.0, sk), "negative_strength_rejected")
-        out = setting.generate_random_effective_lindbladian(int(case["seed"]))
-        ctx.check(isinstance(out, tuple) and len(out) == 5, "random_tuple")
-        lind, rv_h, rv_k, u, rnd = out
-        ctx.check(type(lind) is EffectiveLindbladian, "random_type")
-        rnd = np.asarray(rnd)
-        ctx.close(np.asarray(lind.hs) - r["hs"], rnd, tol, "random_is_base_plus_random")
-        h2, j2, k2, _ = ref_decompose(shape, rnd)
-        rv_h, rv_k = np.asarray(rv_h, dtype=float), np.asarray(rv_k, dtype=float)
-        ctx.check(rv_h.shape == (n - 1,) and rv_k.shape == (n - 1,), "random_variable_shapes")
-        # h part: H = sum_a strength_h * x_a/|x| B_a
-        hvec = sh * rv_h / np.linalg.norm(rv_h)
-        h_exp = rm.unvec(basis[1:], hvec)
-        ctx.close(h2, h_exp, tol, "random_h_strength")
-        # k part: PSD with spectrum |strength_k x/|x||, J = J(K): a GKSL generator
-        lam_exp = np.sort(np.abs(sk * rv_k / np.linalg.norm(rv_k)))
-        ctx.close(np.sort(np.linalg.eigvalsh(rm.herm(k2))), lam_exp, tol, "random_k_spectrum")
-        ctx.close(k2, rm.herm(k2), tol, "random_k_hermitian")
-        ctx.close(j2, j_from_k(bs[1:], rm.herm(k2)), tol, "random_j_is_gksl")
-        ctx.close(rnd[0], np.zeros(n), tol, "random_trace_preserving")
-        # the perturbed generator is physical and exponentiates to a CPTP gate
-        ctx.check(bool(lind.is_physical(1e-9, 1e-9)), "random_sum_physical")
-        gate, *_ = setting.generate_gate(int(case["seed"]))
-        ghs = np.asarray(gate.hs)
-        ctx.close(ghs, expm_ref(np.asarray(lind.hs)), tol_for(shape, r["scale"] + float(np.linalg.norm(lind.hs, 1))), "random_gate_is_expm")
-        ctx.leq(-rm.min_eig(rm.choi_from_hs(basis, ghs)), 0.0, tol * d, "random_gate_cp")
-        # same seed, same generator
-        out2 = setting.generate_random_effective_lindbladian(int(case["seed"]))
-        ctx.equal(np.asarray(out2[0].hs), np.asarray(lind.hs), "random_reproducible")
-    finally:
-        Settings.set_atol(1e-13)
+    base = EffectiveLindbladian(c_sys, r["hs"].copy(), is_physicality_required=False)
+    ident = build.make(c_sys, "gate", np.eye(n).reshape(-1), is_physicality_required=True)
+    setting = RandomEffectiveLindbladianGenerationSetting(c_sys, ident, base, sh, sk)
+    ctx.raises(ValueError, lambda: RandomEffectiveLindbladianGenerationSetting(c_sys, ident, base, -1.0, sk), "negative_strength_rejected")
+    out = setting.generate_random_effective_lindbladian(int(case["seed"]))
+    ctx.check(isinstance(out, tuple) and len(out) == 5, "random_tuple")
+    lind, rv_h, rv_k, u, rnd = out
+    ctx.check(type(lind) is EffectiveLindbladian, "random_type")
+    rnd = np.asarray(rnd)
+    ctx.close(np.asarray(lind.hs) - r["hs"], rnd, tol, "random_is_base_plus_random")
+    h2, j2, k2, _ = ref_decompose(shape, rnd)
+    rv_h, rv_k = np.asarray(rv_h, dtype=float), np.asarray(rv_k, dtype=float)
+    ctx.check(rv_h.shape == (n - 1,) and rv_k.shape == (n - 1,), "random_variable_shapes")
+    # h part: H = sum_a strength_h * x_a/|x| B_a
+    hvec = sh * rv_h / np.linalg.norm(rv_h)
+    h_exp = rm.unvec(basis[1:], hvec)
+    ctx.close(h2, h_exp, tol, "random_h_strength")
+    # k part: PSD with spectrum |strength_k x/|x||, J = J(K): a GKSL generator
+    lam_exp = np.sort(np.abs(sk * rv_k / np.linalg.norm(rv_k)))
+    ctx.close(np.sort(np.linalg.eigvalsh(rm.herm(k2))), lam_exp, tol, "random_k_spectrum")
+    ctx.close(k2, rm.herm(k2), tol, "random_k_hermitian")
+    ctx.close(j2, j_from_k(bs[1:], rm.herm(k2)), tol, "random_j_is_gksl")
+    ctx.close(rnd[0], np.zeros(n), tol, "random_trace_preserving")
+    # the perturbed generator is physical and exponentiates to a CPTP gate
+    ctx.check(bool(lind.is_physical(1e-9, 1e-9)), "random_sum_physical")
+    gate, *_ = setting.generate_gate(int(case["seed"]))
+    ghs = np.asarray(gate.hs)
+    ctx.close(ghs, expm_ref(np.asarray(lind.hs)), tol_for(shape, r["scale"] + float(np.linalg.norm(lind.hs, 1))), "random_gate_is_expm")
+    ctx.leq(-rm.min_eig(rm.choi_from_hs(basis, ghs)), 0.0, tol * d, "random_gate_cp")
+    # same seed, same generator
+    out2 = setting.generate_random_effective_lindbladian(int(case["seed"]))
+    ctx.equal(np.asarray(out2[0].hs), np.asarray(lind.hs), "random_reproducible")
     ctx.nontrivial(sh > 0 and sk > 0)
 
 
